@@ -36,7 +36,7 @@ func c04Pfor(t []byte) string {
 	seen := map[string]bool{}
 	var ents []string
 	add := func(v []byte) {
-		if len(v) == 0 || len(v) > 4000 {
+		if len(v) == 0 || len(v) > 40000 {
 			return
 		}
 		for _, b := range v {
@@ -628,7 +628,9 @@ type c04Gen struct {
 // valid emits a valid document, remembers it for the mutators and (debug) checks the round trip.
 func (g *c04Gen) valid(tag byte, data []byte, finite bool) {
 	obs := c04RT(g.c, tag, data)
-	if len(g.docs) < 20000 {
+	if len(data) > 6000 {
+		// the large documents of genSizes are not material for the mutators (time)
+	} else if len(g.docs) < 20000 {
 		g.docs = append(g.docs, c04Doc{tag, data, finite})
 	} else {
 		g.docs[g.c.R.Intn(len(g.docs))] = c04Doc{tag, data, finite}
@@ -1299,7 +1301,13 @@ func c04HandPicked(c *Ctx) []string {
 	// in a list, as a compound value and as a compound name
 	for _, n := range []int{32767, 32768, 65536} {
 		a := strings.Repeat("a", n)
-		l = append(l, a, `"`+a+`"`, "["+a+",b]", "[b,"+a+"]", "{k:"+a+"}", "{"+a+":1b}", `{"`+a+`":[]}`, "{"+a+":{}}", "{"+a+":[I;1]}")
+		l = append(l, a, "["+a+",b]", "[b,"+a+"]", "{k:"+a+"}", "{"+a+":1b}", "{"+a+":{}}", "{"+a+":[I;1]}")
+		if n < 65536 { // the model's unquote loop is quadratic: the quoted forms only below 2^16
+			l = append(l, `"`+a+`"`)
+		}
+		if n == 32768 {
+			l = append(l, `{"`+a+`":[]}`)
+		}
 	}
 	if c.Thorough() {
 		l = append(l,
@@ -1384,6 +1392,7 @@ func genC04(c *Ctx) {
 	g := &c04Gen{c: c, debug: os.Getenv("C04_DEBUG") != ""}
 	c04GenTexts(c)
 	g.genDocs()
+	g.genSizes()
 	g.genMalformed()
 	if g.debug {
 		fmt.Fprintf(os.Stderr, "C04DEBUG valid-doc violations: %d\n", g.bugs)
